@@ -431,9 +431,8 @@ def _observe_flat(case, S, T):
 
 
 def _observe_schema(case, S, T, orjson):
-    obs = {"cols": [], "parse": [], "ser": []}
+    obs = {"cols": [], "parse": []}
     cols = []
-    serseen = set()
     for spec in case["cols"]:
         kw = _kwargs(spec["kw"])
         o = {"fresh": None}
@@ -482,13 +481,15 @@ def _observe_schema(case, S, T, orjson):
                 obs["parse"] += _parse_entries(T, _base(S.FlatColumn, d, {}), [d.get("default")])
             except Exception:
                 pass
+        o["ser"] = []
+        serseen = set()
         for f in dataclasses.fields(S.FlatColumn):
             v = getattr(c, f.name)
             for leaf in (v if type(v) is list else [v]):
                 e = enc(leaf)
                 if not _native(e) and e[0] != "l" and repr(e) not in serseen:
                     serseen.add(repr(e))
-                    obs["ser"].append([e, _ser_probe(S, orjson, leaf)])
+                    o["ser"].append([e, _ser_probe(S, orjson, leaf)])
         obs["cols"].append(o)
     obs["parse"] = _dedupe(obs["parse"])
     if any(c is None for c in cols):
@@ -935,13 +936,15 @@ def to_coq(case, obs):
         if b[0] == "ok":
             if not _fields_ok(b[1]):
                 return None
-            t = "(mkobs %s %s %s %s %s %s %s)" % (
-                L.text(o.get("fresh") or ""), _cres(b, lambda a: _ccolumn(a, I)), _cres(o["json"], lambda j: _cjson(j, I)),
+            t = "(mkobs %s %s %s %s %s %s %s %s)" % (
+                L.text(o.get("fresh") or ""),
+                "(%s : ser_table)" % L.lst("(%s, %s)" % (_catom(a, I), _cres(r, lambda j: _cjson(j, I))) for a, r in o["ser"]),
+                _cres(b, lambda a: _ccolumn(a, I)), _cres(o["json"], lambda j: _cjson(j, I)),
                 _crobs(b[1], o["back"], I), _crobs(b[1], o["flat"], I),
                 _cdesc(o["desc"], I),
                 _cdesc(obs["desc2"][len(cols)] if "desc2" in obs else DUMMY, I))
         else:
-            t = "(mkobs [] %s (Raise OtherExn) (RFull (Raise OtherExn)) (RFull (Raise OtherExn)) (Raise OtherExn) (Raise OtherExn))" % _cres(b, lambda a: "")
+            t = "(mkobs [] [] %s (Raise OtherExn) (RFull (Raise OtherExn)) (RFull (Raise OtherExn)) (Raise OtherExn) (Raise OtherExn))" % _cres(b, lambda a: "")
         cols.append("(%s, %s)" % (_ckw(spec["kw"], I), t))
     built = _built(obs)
     od = orest = "(Raise OtherExn)"
@@ -978,9 +981,8 @@ def to_coq(case, obs):
                 orest = "(Raise Unmodelled)"
         else:
             orest = _cres(r, lambda x: "")
-    sert = "(%s : ser_table)" % L.lst("(%s, %s)" % (_catom(a, I), _cres(r, lambda j: _cjson(j, I))) for a, r in obs["ser"])
     top = "(%s)" % ", ".join(_cpv(v, I) for v in [case["name"], case["aliases"], case["pk"]] + case["stats"])
-    term = "(%s, %s, %s, %s, %s, %s)" % (_cparse(obs["parse"], I), sert, top, L.lst(cols), od, orest)
+    term = "(%s, %s, %s, %s, %s)" % (_cparse(obs["parse"], I), top, L.lst(cols), od, orest)
     return ("schema", term)
 
 
